@@ -14,6 +14,8 @@
 (*   "wrongcol"  the step reads column cond[i]-1 instead of cond[i]                       *)
 (*   "otherrow"  sampling reads the given from the other row                             *)
 (*   "noinverse" the nquad wrapper applies arg_order instead of argsort(arg_order)        *)
+(*   "constshared" a dimension whose parameters do not depend on the given (shape class 1)  *)
+(*               draws ONE value and repeats it in every row (scalar parameters broadcast)  *)
 (*   "clipgiven" sampling clips the given to the range 0..1 before it is used (the range  *)
 (*               of values a fit has seen) instead of using the value in the row          *)
 EXTENDS RosenblattOps, Json, TLC
@@ -58,6 +60,9 @@ GivenUsed(r, i) == IF cond[i] = 0 THEN 0
                    ELSE IF Mut = "clipgiven" THEN Min2(x[r][cond[i]], 1)
                    ELSE x[UsedRow(r)][UsedCol(i)]
 
+(* the row whose random level is used for row r of column i *)
+LevelRow(r, i) == IF Mut = "constshared" /\ cond[i] # 0 /\ sh[i] = 1 THEN 1 ELSE r
+
 IcdfStep(i) ==
     /\ mode = "icdf" /\ pc = i /\ i <= n
     /\ x' = [x EXCEPT ![1][i] = Qm(sh[i], u[1][i], GivenUsed(1, i))]
@@ -66,7 +71,8 @@ IcdfStep(i) ==
 
 SampleStep(i) ==
     /\ mode = "sample" /\ pc = i /\ i <= n
-    /\ x' = [r \in 1..Rows |-> [x[r] EXCEPT ![i] = Qm(sh[i], u[r][i], GivenUsed(r, i))]]
+    /\ x' = [r \in 1..Rows |->
+              [x[r] EXCEPT ![i] = Qm(sh[i], u[LevelRow(r, i)][i], GivenUsed(r, i))]]
     /\ pc' = i + 1
     /\ UNCHANGED <<mode, n, cond, sh, u, acc>>
 
